@@ -32,6 +32,18 @@ def special_inputs():
     out.append(("FromStr", "enum E { Foo, FOO, foo, Bar, BAR, Baz, Qux, QUX, Quux, Corge, Grault, Garply, Waldo, Fred }"))
     for d in ("Mul", "Div", "Shl", "MulAssign", "RemAssign"):
         out.append((d, "struct S { " + ", ".join(f"f{i}: {t}" for i, t in enumerate(tys[:8])) + " }"))
+    # the same code path at different sizes: scratch state that survives between expansions (a cleared set keeps its
+    # capacity, a memo keeps its entries) shows as an order that depends on what was expanded before
+    for n in (2, 3, 4, 5, 9):
+        for rot in (0, 3, 7):
+            fts = [tys[(rot + j * 5) % len(tys)] for j in range(n)]
+            if len(set(fts)) < n:
+                continue
+            for d in ("Mul", "ShrAssign"):
+                out.append((d, f"struct P{n}_{rot}(" + ", ".join(fts) + ");"))
+            out.append(("TryInto", f"enum T{n}_{rot} {{ " + ", ".join(f"V{j}({t})" for j, t in enumerate(fts)) + " }"))
+            out.append(("Error", f"enum G{n}_{rot}<" + ", ".join(f"X{j}" for j in range(n)) + "> { " +
+                        ", ".join(f"V{j} {{ source: X{j} }}" for j in range(n)) + " }"))
     out.append(("Error", "enum E<A, B, C, D> { V0 { source: A }, V1(#[error(source)] B, u8), V2(C), V3 { #[error(source)] x: D, y: A } }"))
     out.append(("Error", "struct S<A, B>(#[error(source)] Vec<A>, B);"))
     out.append(("TryInto", "enum E<T, U> { A(T), B(U), C(T, U), D(U, T), E0(u8), F(u16) }"))
